@@ -316,4 +316,73 @@ theorem C16_old_loop_reloads_forever (k : Nat) :
 example : (SigLoop.run true {} [.usr1, .select, .term, .select]).exited = true ∧
           (SigLoop.run true {} [.usr1, .select, .term, .select]).reloads = 1 := by decide
 
+/-! ## the metrics server (D17) -/
+
+/-- the invariant of the repaired protocol: once Stop has completed the serving goroutine has returned -/
+def Metrics.Good (s : Metrics) : Prop := s.stopDone = true → s.phase = .returned
+
+theorem Metrics.good_step (s s' : Metrics) (e : MEv) (h : s.Good) (hs : s.step true e = some s') : s'.Good := by
+  cases e with
+  | goroutine =>
+    simp only [Metrics.step] at hs
+    intro hd
+    split at hs
+    all_goals first
+      | (cases hs; have := h hd; simp_all)
+      | (split at hs <;> first | (cases hs; have := h hd; simp_all) | cases hs)
+      | cases hs
+  | shutdown =>
+    simp only [Metrics.step] at hs
+    split at hs
+    · cases hs
+    · cases hs; exact h
+  | complete =>
+    simp only [Metrics.step] at hs
+    split at hs
+    · cases hs
+      rename_i hc
+      intro _
+      simp only [Bool.not_true, Bool.false_or, Bool.and_eq_true, decide_eq_true_eq] at hc
+      exact hc.2
+    · cases hs
+
+/-- **C16 for the metrics server, every interleaving**: whenever Stop has completed, the serving goroutine has
+returned and the address is not bound — however Stop raced with start-up -/
+theorem C16_metrics_stop_leaves_nothing (evs : List MEv) (s : Metrics)
+    (h : ({} : Metrics).run true evs = some s) (hd : s.stopDone = true) : s.phase = .returned ∧ s.bound = false := by
+  have key : ∀ (evs : List MEv) (s0 s1 : Metrics), s0.Good → s0.run true evs = some s1 → s1.Good := by
+    intro evs
+    induction evs with
+    | nil => intro s0 s1 hg hr; simp only [Metrics.run, Option.some.injEq] at hr; subst hr; exact hg
+    | cons e rest ih =>
+      intro s0 s1 hg hr
+      simp only [Metrics.run] at hr
+      split at hr
+      · rename_i s' hs'; exact ih s' s1 (Metrics.good_step s0 s' e hg hs') hr
+      · cases hr
+  have hg := key evs {} s (by intro hd; cases hd) h
+  have hp := hg hd
+  exact ⟨hp, by simp [Metrics.bound, hp]⟩
+
+/-- … and Stop can always complete: from any state in which Shutdown has run, the goroutine reaches `returned`
+in at most three of its own steps -/
+theorem C16_metrics_stop_terminates (s : Metrics) (hs : s.shutdown = true) (hd : s.stopDone = false) :
+    ∃ evs s', evs.length ≤ 4 ∧ s.run true evs = some s' ∧ s'.stopDone = true := by
+  obtain ⟨ph, sd, dn⟩ := s
+  simp only at hs hd
+  subst hs hd
+  cases ph
+  · exact ⟨[.goroutine, .complete], _, by simp, rfl, rfl⟩
+  · exact ⟨[.goroutine, .goroutine, .complete], _, by simp, rfl, rfl⟩
+  · exact ⟨[.goroutine, .complete], _, by simp, rfl, rfl⟩
+  · exact ⟨[.goroutine, .complete], _, by simp, rfl, rfl⟩
+  · exact ⟨[.complete], _, by simp, rfl, rfl⟩
+
+/-- the server as it was (Stop does not wait): the goroutine passes the shutdown check, Shutdown runs and Stop
+completes, then the goroutine binds the address — bound after Stop has completed (what `life.metrics immediate=1`
+observed as `free_at_stop=0`, and what killed a restart on the same address with "address already in use") -/
+theorem C16_metrics_old_counterexample :
+    ∃ s, ({} : Metrics).run false [.goroutine, .shutdown, .complete, .goroutine] = some s ∧ s.stopDone = true ∧ s.bound = true := by
+  exact ⟨_, rfl, rfl, rfl⟩
+
 end Lifecycle
